@@ -546,7 +546,7 @@ func VP_C04_big_roundtrip() {
 	kind := vp.Choice(5)
 	n := []int{1025, 300, 140, 1100, 5000}[kind]
 	if vp.Tier() == 1 && vp.Bool() {
-		n = []int{4100, 1030, 520, 4100, 70000}[kind]
+		n = []int{4100, 1030, 520, 4100, 32767}[kind] // (C01: 0..32767-byte strings)
 	}
 	vp.SizeBound(8*n + 64)
 	vp.Unwind(8*n + 64)
